@@ -31,6 +31,23 @@ func allKindsFields() defMap {
 	return f
 }
 
+// akNarrowFields: another Go struct for the same type name "ak", with fewer fields (an older
+// version of the API in the same program): impl "wrapn"
+func akNarrowFields() defMap {
+	f := allKindsFields()
+	for _, drop := range []string{"kint8", "pstring", "m2", "ktime", "puint64"} {
+		delete(f, drop)
+	}
+	return f
+}
+
+func akFields(impl string) defMap {
+	if impl == "wrapn" {
+		return akNarrowFields()
+	}
+	return allKindsFields()
+}
+
 var ak2Fields = defMap{"s": {Kind: "attr", K: "string"}, "back": {Kind: "rel", To1: true, TT: "ak"}}
 
 // ak3 has attributes only (no relationship at all)
@@ -72,9 +89,10 @@ func buildAkSchema(impl string, withSpare bool) *jsonapi.Schema {
 	if withSpare {
 		must(s.AddType(jsonapi.Type{Name: "aa0"}))
 	}
-	if impl == "wrap" || impl == "wrap2" {
-		// wrap2: the same type name over a struct whose fields are declared in the opposite order
-		typ, err := jsonapi.BuildType(reflect.New(structType("ak", allKindsFields(), kindMap{Rev: impl == "wrap2"})).Interface())
+	if impl == "wrap" || impl == "wrap2" || impl == "wrapn" {
+		// wrap2: the same type name over a struct whose fields are declared in the opposite order;
+		// wrapn: over a struct with fewer fields
+		typ, err := jsonapi.BuildType(reflect.New(structType("ak", akFields(impl), kindMap{Rev: impl == "wrap2"})).Interface())
 		must(err)
 		must(s.AddType(typ))
 		must(s.AddType(*softType("ak2", ak2Fields, kindMap{})))
@@ -169,13 +187,20 @@ func runRoundTrip(c rtCase) rtEvent {
 	ev := rtEvent{Ev: "rt", Impl: c.Impl, Via: c.Via, Class: c.Class, Ret: "ok"}
 	p, _ := catch(func() {
 		schema := akSchema(c.Impl)
-		fields := allKindsFields()
-		src := newRes(c.Impl, "ak", fields, kindMap{})
+		fields := akFields(c.Impl)
+		implOfRes := c.Impl
+		if implOfRes == "wrapn" {
+			implOfRes = "wrap"
+		}
+		src := newRes(implOfRes, "ak", fields, kindMap{})
 		id := rtIDs[c.IDSel%len(rtIDs)]
 		src.Set("id", id)
 		vals, o, m := rtValues(c)
 		for f, v := range vals {
-			d := fields[f]
+			d, has := fields[f]
+			if !has {
+				continue
+			}
 			kind := kindOf(d.K)
 			switch {
 			case v == nil:
@@ -197,7 +222,9 @@ func runRoundTrip(c rtCase) rtEvent {
 		src.Set("o2", "")
 		if len(m) > 0 {
 			src.Set("o2", m[0])
-			src.Set("m2", []string{o})
+			if _, has := fields["m2"]; has {
+				src.Set("m2", []string{o})
+			}
 		}
 		all, rd := allFieldsOf(src)
 		var payload []byte
@@ -238,8 +265,15 @@ func runRoundTrip(c rtCase) rtEvent {
 		_ = json.Unmarshal(payload, &ro)
 		var rawAttrs map[string]json.RawMessage
 		_ = json.Unmarshal(ro["attributes"], &rawAttrs)
+		// the resource that came back has exactly the fields of its own struct
+		if len(back.Attrs())+len(back.Rels()) != len(fields) {
+			ev.R.AttrsSame = false
+		}
 		for f, v := range vals {
-			d := fields[f]
+			d, has := fields[f]
+			if !has {
+				continue
+			}
 			kind := kindOf(d.K)
 			got := back.Get(f)
 			isNil := got == nil || (reflect.ValueOf(got).Kind() == reflect.Ptr && reflect.ValueOf(got).IsNil())
@@ -975,7 +1009,7 @@ func remarshalSame(c payCase, out []byte) bool {
 func codecOtherModes(mode string, rng *rand.Rand, stt *stats, w *evWriter, n int, seed int64, gen string) {
 	switch mode {
 	case "roundtrip":
-		for _, impl := range []string{"soft", "wrap"} {
+		for _, impl := range []string{"soft", "wrapn", "wrap", "wrapn"} { // the narrower struct first, and again after the full one
 			for _, via := range []string{"resource", "document"} {
 				classes := []string{"zero", "nil"}
 				for t := 0; t < 3*3+3; t++ { // every rank of every table for all kinds at once, then mixed ranks
